@@ -35,7 +35,7 @@ func startProc(mode string, env ...string) (*proc, error) {
 		return nil, err
 	}
 	cmd := exec.Command(exe, "-test.run=^$")
-	cmd.Env = append(os.Environ(), "C08_CHILD="+mode, "GOTRACEBACK=crash", "GOMAXPROCS=4")
+	cmd.Env = append(os.Environ(), "C08_CHILD="+mode, "GOTRACEBACK=single", "GOMAXPROCS=4")
 	cmd.Env = append(cmd.Env, env...)
 	cmd.SysProcAttr = &syscall.SysProcAttr{Pdeathsig: syscall.SIGKILL}
 	stdin, err := cmd.StdinPipe()
@@ -183,7 +183,7 @@ func (p *proc) cpuTicks() int64 {
 	return ut + st
 }
 
-// spinning reports whether the child burns CPU (>= 60% of one core) during d.
+// spinning reports whether the child burns CPU (>= 35% of one core, the machine may be busy) during d.
 func (p *proc) spinning(d time.Duration) bool {
 	a := p.cpuTicks()
 	t0 := time.Now()
@@ -193,16 +193,69 @@ func (p *proc) spinning(d time.Duration) bool {
 	if a < 0 || b < 0 {
 		return false
 	}
-	return float64(b-a)/100.0 >= 0.6*el
+	return float64(b-a)/100.0 >= 0.35*el
 }
 
-// dumpAndKill asks the Go runtime of the child for all goroutine stacks
-// (SIGQUIT), waits for the dump and makes sure the process is gone.
+// hotThread returns the thread of the child that used most CPU during d (0 if none did).
+func (p *proc) hotThread(d time.Duration) int {
+	pid := p.cmd.Process.Pid
+	read := func() map[int]int64 {
+		res := map[int]int64{}
+		ents, err := os.ReadDir(fmt.Sprintf("/proc/%d/task", pid))
+		if err != nil {
+			return res
+		}
+		for _, e := range ents {
+			tid, err := strconv.Atoi(e.Name())
+			if err != nil {
+				continue
+			}
+			b, err := os.ReadFile(fmt.Sprintf("/proc/%d/task/%d/stat", pid, tid))
+			if err != nil {
+				continue
+			}
+			s := string(b)
+			i := strings.LastIndexByte(s, ')')
+			if i < 0 {
+				continue
+			}
+			f := strings.Fields(s[i+1:])
+			if len(f) < 13 {
+				continue
+			}
+			ut, _ := strconv.ParseInt(f[11], 10, 64)
+			st, _ := strconv.ParseInt(f[12], 10, 64)
+			res[tid] = ut + st
+		}
+		return res
+	}
+	a := read()
+	time.Sleep(d)
+	b := read()
+	best, bestd := 0, int64(0)
+	for tid, v := range b {
+		if dv := v - a[tid]; dv > bestd {
+			best, bestd = tid, dv
+		}
+	}
+	return best
+}
+
+// dumpAndKill asks the Go runtime of the child for its goroutine stacks: SIGQUIT is delivered to
+// the thread that burns CPU, so that the goroutine running there is printed with its stack (a
+// goroutine running on another thread than the one handling the signal has none in the dump).
+// Waits for the dump and makes sure the process is gone.
 func (p *proc) dumpAndKill() string {
 	p.mu.Lock()
 	n := len(p.errbuf)
 	p.mu.Unlock()
-	p.cmd.Process.Signal(syscall.SIGQUIT)
+	if tid := p.hotThread(30 * time.Millisecond); tid != 0 {
+		if err := syscall.Tgkill(p.cmd.Process.Pid, tid, syscall.SIGQUIT); err != nil {
+			p.cmd.Process.Signal(syscall.SIGQUIT)
+		}
+	} else {
+		p.cmd.Process.Signal(syscall.SIGQUIT)
+	}
 	if !p.waitExit(3 * time.Second) {
 		p.kill()
 	}
